@@ -1,6 +1,6 @@
 (* C02 — gradients through solve equal the derivative of the exact solution map. *)
 From mathcomp Require Import all_ssreflect all_algebra.
-From XV Require Import Base.Deriv Base.MxDeriv Proofs.SolveBackward.
+From XV Require Import Base.Deriv Base.MxDeriv Proofs.SolveBackward Proofs.ConjAdjoint.
 Import GRing.Theory.
 Local Open Scope ring_scope.
 
@@ -36,3 +36,16 @@ Theorem C02_solve_backward_no_E : forall (R : comRingType) (D : derivation R) n 
   \tr (G^T *m dmx D X) = \tr (V^T *m dmx D B) - \tr (V^T *m (dmx D A *m X)).
 Proof. exact solve_backward_no_E. Qed.
 Print Assumptions C02_solve_backward_no_E.
+
+(* T5: the conjugate (complex) case: with V the solution of the adjoint system (A - E M)^H V = G, i.e.
+   A^H V - M^H V conj(E) = G, the same identity holds for the sesquilinear pairing tr(G^H dX) (any field with an
+   involutive conjugation): grad_B = V, the A-part pairs V with dA X, the M-part with dM X E, the E-part with M X dE *)
+Theorem C02_solve_backward_adjoint_conj : forall (F : fieldType) (cj : {rmorphism F -> F}), involutive cj ->
+  forall (D : derivation F) n c (A M : 'M[F]_n) (X B G V : 'M[F]_(n, c)) (E : 'M[F]_c),
+  A *m X - M *m X *m E = B ->
+  map_mx cj A^T *m V - map_mx cj M^T *m V *m map_mx cj E^T = G ->
+  \tr (map_mx cj G^T *m dmx D X) =
+  \tr (map_mx cj V^T *m dmx D B) - \tr (map_mx cj V^T *m (dmx D A *m X)) + \tr (map_mx cj V^T *m (dmx D M *m X *m E))
+  + \tr (map_mx cj V^T *m (M *m X *m dmx D E)).
+Proof. move=> F cj cjK D n c A M X B G V E; exact: solve_backward_adjoint_conj. Qed.
+Print Assumptions C02_solve_backward_adjoint_conj.
